@@ -33,6 +33,10 @@ var meshMutators = map[string]bool{
 }
 
 func (c *Ctx) runQueryPurity(eng *effEngine, pkgs []*packages.Package, rule string) {
+	c.runQueryPurityFor(eng, pkgs, rule, queryInterfaces)
+}
+
+func (c *Ctx) runQueryPurityFor(eng *effEngine, pkgs []*packages.Package, rule string, queryInterfaces map[string][]string) {
 	// collect the interfaces
 	type iface struct {
 		name string
@@ -110,7 +114,7 @@ func (c *Ctx) runQueryPurity(eng *effEngine, pkgs []*packages.Package, rule stri
 				}
 			}
 			// Mesh read methods
-			if n == "Mesh" && (p.PkgPath == repoMod+"/model3d" || p.PkgPath == repoMod+"/model2d") {
+			if _, all := queryInterfaces["toolbox3d"]; all && n == "Mesh" && (p.PkgPath == repoMod+"/model3d" || p.PkgPath == repoMod+"/model2d") {
 				for i := 0; i < named.NumMethods(); i++ {
 					f := named.Method(i)
 					if meshMutators[f.Name()] || seen[f] {
